@@ -41,11 +41,13 @@ impl GravsoftSpec {
                 100_000.0 * rng.range(1, 8) as f64,
             )
         } else {
+            // steps include decimal fractions that are not exact in binary, and dense
+            // grids far from the origin (large coordinate/step ratios)
             (
-                *rng.pick(&[0.125, 0.25, 0.5, 1.0, 2.0]),
-                *rng.pick(&[0.125, 0.25, 0.5, 1.0, 2.0]),
-                rng.range(-60, 60) as f64 + *rng.pick(&[0.0, 0.5, 0.25]),
-                rng.range(-150, 150) as f64 + *rng.pick(&[0.0, 0.5, 0.25]),
+                *rng.pick(&[0.125, 0.25, 0.5, 1.0, 2.0, 0.01, 0.02, 0.05, 0.1, 1.0 / 60.0, 1.0 / 120.0, 0.2]),
+                *rng.pick(&[0.125, 0.25, 0.5, 1.0, 2.0, 0.01, 0.02, 0.05, 0.1, 1.0 / 60.0, 1.0 / 120.0, 0.3]),
+                rng.range(-60, 60) as f64 + *rng.pick(&[0.0, 0.5, 0.25, 0.3, 0.17]),
+                rng.range(-150, 150) as f64 + *rng.pick(&[0.0, 0.5, 0.25, 0.2, 0.93]),
             )
         };
         let lat_n = lat_s + dlat * (rows - 1) as f64;
@@ -347,11 +349,13 @@ impl Ntv2Spec {
         for b in 0..bases {
             let rows = 4 + rng.below(5);
             let cols = 4 + rng.below(5);
-            let inc = 3600.0;
+            // one degree cells, or dense grids (large coordinate/step ratios); always a
+            // multiple of 4 seconds so that children at inc/2 and inc/4 stay exact
+            let inc = *rng.pick(&[3600.0, 3600.0, 1800.0, 300.0, 60.0, 120.0, 40.0]);
             // bases side by side, separated by a gap, so that they never overlap
-            let s_lat = 3600.0 * rng.range(-60, 50) as f64;
-            // (at most 8 columns of one degree within a 50 degree slot)
-            let w = 3600.0 * (-170.0 + 50.0 * b as f64 + rng.range(0, 30) as f64);
+            let s_lat = 3600.0 * rng.range(-60, 50) as f64 + inc * rng.range(0, 7) as f64;
+            // (at most 8 columns of at most one degree within a 50 degree slot)
+            let w = 3600.0 * (-170.0 + 50.0 * b as f64 + rng.range(0, 30) as f64) + inc * rng.range(0, 5) as f64;
             let base_name = format!("B{}", b);
             let base = Self::gen_subgrid(rng, &base_name, "NONE", s_lat, w, rows, cols, inc, inc);
             if rng.chance(0.6) {
